@@ -664,7 +664,7 @@ impl Engine for PbEngine {
         // BufReader already holds the bytes): nothing more to learn, stop here.
         if buf_result.is_none() {
             drop(set);
-            return Outcome { violation, nontrivial, steps, trace_hash: mix(&trace), executions: 1 };
+            return Outcome { violation, nontrivial, steps, trace_hash: mix(&trace), executions: 1, ..Default::default() };
         }
 
         // (c) the file path over the simulated device
@@ -746,7 +746,7 @@ impl Engine for PbEngine {
                 }
             }
         }
-        Outcome { violation, nontrivial, steps, trace_hash: mix(&trace), executions: 3 }
+        Outcome { violation, nontrivial, steps, trace_hash: mix(&trace), executions: 3, ..Default::default() }
     }
 
     fn shrink(&self, case: &PbCase) -> Vec<PbCase> {
